@@ -182,10 +182,13 @@ impl<'a> Sim<'a> {
                         self.push_valuation();
                     }
                 }
+                Wire::InsertLost { .. } => {
+                    ev!(self.ctx, "fault: insert_order failed at the transport (client returned Err)");
+                    self.ctx.bump("f10_insert_order_request_lost");
+                }
                 Wire::Failed { what } => {
                     ev!(self.ctx, "fault: {what} failed at the transport (client returned Err)");
                     match *what {
-                        "insert_order" => self.ctx.bump("f10_insert_order_request_lost"),
                         "tick" => {
                             self.ctx.bump("f10_tick_request_lost");
                             self.lost_tick_requests += 1;
@@ -276,7 +279,7 @@ impl<'a> Sim<'a> {
         self.sh.fault_budget.set(0);
         alator::verif::set_positions_seed(Some(self.case.init_perm));
         let dep = self.case.deposit.0;
-        let r = catch(|| self.strat.init(&dep));
+        let r = catch(|| crate::exec::enter(|| self.strat.init(&dep)));
         alator::verif::set_positions_seed(None);
         match r {
             Ok(()) => {
@@ -305,7 +308,7 @@ impl<'a> Sim<'a> {
         self.sh.fault_budget.set(rec.fault_budget as i64);
         alator::verif::set_positions_seed(Some(rec.perm));
         self.ctx.bump("f9_positions_permutations_installed");
-        let r = catch(|| self.exec_inner(rec));
+        let r = catch(|| crate::exec::enter(|| self.exec_inner(rec)));
         alator::verif::set_positions_seed(None);
         if let Err(p) = r {
             ev!(self.ctx, "PANIC {p}");
@@ -449,6 +452,7 @@ fn finish(sim: &mut Sim) {
     sim.ctx.add("requests", sim.sh.requests.get());
     sim.ctx.add("f6_lazy_effects", sim.sh.lazy_effects.get());
     sim.ctx.add("f6_pending_polls", sim.sh.pending_polls.get());
+    sim.ctx.add("f6_simulated_ms_waited_for_slow_deliveries", sim.sh.simulated_ms.get());
     sim.ctx.add("f6_futures_dropped_unpolled", sim.sh.dropped_unpolled.get());
     sim.ctx.add("strategy_updates", sim.updates as u64);
     let ds = &sim.case.dataset;
